@@ -154,6 +154,7 @@ struct Harness {
 #endif
     g_poison_reads = 0;
     g_div_zero = 0;
+    g_dead_operand_reads = 0;
     size_t h = std::hash<std::string>{}(desc);
     if (!seen.insert(h).second) duplicates++;
     if (samples.size() < 3 || (samples.size() < 8 && ((size_t)(idx * 2654435761u + seed * 40503u) % 9973u) == 0)) samples.push_back(desc);
@@ -174,6 +175,8 @@ struct Harness {
 #endif
     if (g_poison_reads) fail("uninit", "read of " + std::to_string(g_poison_reads) + " uninitialised (default-constructed) scalar value(s)");
     if (g_div_zero) fail("divzero", "division by zero inside the code under test");
+    if (g_dead_operand_reads) fail("lazy-dangling", "a lazily evaluated scalar expression was used after " + std::to_string(g_dead_operand_reads) + " of its operands had been destroyed (result kept in `auto` or stored by value past the full expression)");
+    g_dead_operand_reads = 0;
     g_poison_reads = 0;
     g_div_zero = 0;
     in_case = false;
